@@ -70,6 +70,8 @@ func main() {
 	os.Exit(2)
 }
 
+var profForks bool
+
 type kvFlag map[string]int64
 
 func (k kvFlag) String() string { return "" }
@@ -107,6 +109,7 @@ func cmdRun(args []string) int {
 	seed := fs.Int("seed", 0, "solver random seed")
 	qto := fs.Int("qtimeout", 20000, "per-query timeout in ms")
 	maxPaths := fs.Int("maxpaths", 2000000, "stop after this many paths (reported as incomplete)")
+	forkProf := fs.Bool("forkprof", false, "print fork sites")
 	fatalViol := fs.Bool("fatal-is-violation", false, "log.Fatal/os.Exit reachable counts as a violation")
 	params := kvFlag{}
 	fs.Var(params, "param", "k=v harness parameter (repeatable)")
@@ -134,6 +137,7 @@ func cmdRun(args []string) int {
 			defer log.Close()
 		}
 		for _, name := range strings.Split(*entry, ",") {
+			profForks = *forkProf
 			r := runEntry(ld, name, hd, *pkg, *unwind, *z3, *seed, *qto, log, *trace, *split, params, *known, *maxPaths, *fatalViol)
 			r.LoadSecs = loadT.Seconds()
 			results = append(results, r)
@@ -193,6 +197,23 @@ func runEntry(ld *Loaded, name, hd, pkg string, unwind int, z3 string, seed, qto
 			ex.known[k] = true
 			r.Known = append(r.Known, k)
 		}
+	}
+	if profForks {
+		ex.ForkSites = map[string]int{}
+		defer func() {
+			type kv struct {
+				k string
+				v int
+			}
+			var kvs []kv
+			for k, v := range ex.ForkSites {
+				kvs = append(kvs, kv{k, v})
+			}
+			sort.Slice(kvs, func(i, j int) bool { return kvs[i].v > kvs[j].v })
+			for i := 0; i < len(kvs) && i < 25; i++ {
+				fmt.Printf("   fork x%d %s\n", kvs[i].v, kvs[i].k)
+			}
+		}()
 	}
 	t1 := time.Now()
 	func() {
